@@ -615,8 +615,7 @@ func cmdFunc(args []string) int {
 			}
 			fn := ld.findFunc(cf, fc)
 			if fn == nil {
-				fmt.Println("function not found for", fc.Key)
-				return 2
+				continue // same key in a package that is not loaded
 			}
 			rep := ld.eng.verifyFunc(fn, fc)
 			solveAll(rep.Obls, 10, 12)
